@@ -70,8 +70,7 @@ def run(ck):
                '+ lattice rotation x power-of-two scale (+ reflection) of BOTH coordinate sets (exact in floats); '
                'the same similarity applied to xy alone where the family is closed under it. The transformed '
                'inputs are also compared with the exact model in Coq (agree06). Non-trivial: fit returned, '
-               'n > minobj, and at least one point was clipped or weights/transform are non-identity; distinct by '
-               'content.')
+               'n > minobj, and at least one point was clipped or weights were given; distinct by content.')
     ck.notes += ['parameter equalities are checked within 1e-9 relative; a retained-set mismatch is only reported '
                  'when the deciding residual is farther than 1e-6 relative from the cut-off (summation order '
                  'changes rounding)']
@@ -102,7 +101,8 @@ def run(ck):
         ck.count('geom', geom)
         ck.count('nclip', nclip)
         ck.count('clipped_points', int((~m0).sum()))
-        ck.case((pr['xy'], pr['uv'], pr['wxy'], pr['wuv'], nclip, sigma, accum), n > G.MINOBJ[geom])
+        ck.case((pr['xy'], pr['uv'], pr['wxy'], pr['wuv'], nclip, sigma, accum),
+                n > G.MINOBJ[geom] and (int((~m0).sum()) > 0 or pr['wxy'] is not None or pr['wuv'] is not None))
 
         def report(kind, pr2, f2, detail):
             ck.violation({'kind': kind, 'geom': geom, 'nclip': nclip, 'sigma': sigma, 'clip_accum': accum,
